@@ -2,12 +2,16 @@
 `EpsieModel.Adapt` (DriverAdapt.lean), and the failing-input searches of C13 / C14
 on the real code (oracles from the property statements, independent of the model).
 
-Real objects are built with families.py / forcing.py (plus the sub-variants the
-catalogue does not enumerate: componentwise Andrieu-Thoms, full-covariance
-Sivia-Skilling, default-covariance bounded Sivia-Skilling) and driven one
-`Chain.step()` at a time; nothing in /repo is touched, the only patches are
-instance attributes of harness-owned chains and, for the draw counter, the
-class property `BaseRandom.random_generator` inside a `with` block.
+Real objects are built by `_construct` from the catalogue of families.py (default
+constructor calls, the sub-variants the catalogue does not enumerate -- componentwise
+Andrieu-Thoms, full-covariance Sivia-Skilling, default-covariance bounded
+Sivia-Skilling -- and the variants `o:*` with the OPTIONAL constructor arguments at
+non-default values) and driven one `Chain.step()` at a time; nothing in /repo is
+touched, the only patches are instance attributes of harness-owned chains and, for
+the draw counter, the class property `BaseRandom.random_generator` inside a `with`
+block.  `_construct` also returns what the case CONFIGURES (clock, target rate, prior
+widths, decay, initial widths / covariance, cap): the Lean model's inputs and the
+oracles of the searches are taken from that, not read back from the object.
 """
 import json
 import math
@@ -43,6 +47,74 @@ VARIANTS = {
     'ss_adaptive_normal': ['diag', 'full', 'diag+cap'],
     'ss_adaptive_bounded_normal': ['given', 'default-cov'],
 }
+
+# the algorithm a family adapts with (decides which optional arguments it has)
+ALGO = {}
+for _f in ADAPTIVE:
+    ALGO[_f] = ('ss' if _f.startswith('ss_') else 'at' if _f.startswith('at_') else
+                'eig' if 'eigenvector' in _f else 'vmf' if 'solid_angle' in _f else 'veitch')
+
+# variants `o:<tag>`: the OPTIONAL constructor arguments at non-default values (`case['opts']`, made by
+# `gen_opts`).  Every optional argument the unchanged constructors accept and that reaches the adaptation:
+#   Veitch            initial_std (per parameter, not proportional to the prior widths), target_rate,
+#                     adaptation_decay (+ successive / prior widths, already varied by the default cases)
+#   Sivia-Skilling    cov (scalar / per parameter / full matrix where allowed / default), max_cov, target_rate,
+#                     jump_interval_duration (bounded, angular, discrete: diagonal cov only)
+#   Andrieu-Thoms     target_rate, diagonal, componentwise (the constructors accept no cov / std)
+#   eigenvector       cov0 (default / scalar / full matrix; a 1-d array is rejected), target_rate, shuffle_rate
+#   solid angle       target_rate, radec, degs (kappa is fixed at 5 by the constructor)
+OPT_VARIANTS = {}
+for _f in ADAPTIVE:
+    OPT_VARIANTS[_f] = {'veitch': ['o:init', 'o:all', 'o:rate'], 'ss': ['o:rate'], 'eig': ['o:rate'],
+                        'vmf': ['o:rate'], 'at': ['o:rate:global', 'o:rate:comp']}[ALGO[_f]]
+OPT_VARIANTS['ss_adaptive_normal'] = ['o:rate', 'o:full']
+OPT_VARIANTS['at_adaptive_normal'] = ['o:rate:full', 'o:rate:diag+comp']
+
+# histories made of long runs of rejections (forced), and the needle targets that reject (almost) everything
+REJECT_RUNS = ['R', 'RRRRRRRRRRRA', 'RRRRRA']
+
+
+def is_opt(case):
+    return str(case.get('variant') or '').startswith('o:')
+
+
+def gen_opts(fam, tag, rng, wide_decay=False):
+    """Non-default values for the optional constructor arguments of `fam` (JSON-able, stored in the
+    case; `build` turns them into constructor arguments).  tag: the part of the variant after `o:`."""
+    r3 = lambda a, b: round(rng.uniform(a, b), 3)
+    algo = ALGO[fam]
+    o = {}
+    if algo == 'veitch':
+        xi = 0.234
+        if tag in ('all', 'rate'):
+            xi = o['target_rate'] = r3(0.12, 0.6)
+            # adaptation_decay as a multiple of the default 1/log10(T); <= 1 keeps the gain positive over the
+            # whole window (C13_gain_pos_veitch_decay); larger ones are used by the usability runs only
+            o['decay_rel'] = r3(0.45, 0.95) if not (wide_decay and rng.random() < 0.5) else r3(1.05, 1.6)
+        if tag in ('init', 'all'):
+            # initial widths in units of the prior width, different per parameter: between a third and five
+            # times the default 0.09 (1 - xi), except one that lies below the decrement of the first
+            # rejection, 0.09 xi (so that the non-negativity guard fires for it alone)
+            rel = [round(rng.uniform(0.3, 5.0) * 0.09 * (1 - xi), 5) for _ in range(3)]
+            rel[rng.randrange(2)] = round(rng.uniform(0.02, 0.6) * 0.09 * xi, 6)
+            o['initial_std_rel'] = rel
+    elif algo == 'ss':
+        o['target_rate'] = r3(0.12, 0.6)
+        # the cap in units of the widest box (bounded kinds) / the largest initial width (unbounded kinds)
+        o['max_std_rel'] = r3(0.4, 2.5)
+        o['cov'] = 'full' if tag == 'full' else rng.choice(['diag', 'diag', 'scalar', 'default'])
+        o['dur_rel'] = r3(0.3, 0.8)       # jump_interval_duration as a fraction of the case's T (if k != 1)
+    elif algo == 'at':
+        o['target_rate'] = r3(0.12, 0.6)
+    elif algo == 'eig':
+        o['target_rate'] = r3(0.12, 0.6)
+        o['shuffle_rate'] = r3(0.05, 0.95)
+        o['cov0'] = rng.choice(['spd', 'scalar', 'default'])
+    elif algo == 'vmf':
+        o['target_rate'] = r3(0.12, 0.6)
+        o['radec'] = rng.random() < 0.5
+        o['degs'] = rng.random() < 0.5
+    return o
 
 
 def kind_of(prop):
@@ -133,10 +205,151 @@ def prior_box(kind, dom):
     return (-2.0, 2.0)
 
 
+def _construct(case, fam, names, doms, rng):
+    """The real proposal of a case, and `conf`: every constant of its adaptation as the case CONFIGURES it
+    (explicit argument, or the documented default) -- computed from the case alone, never read back from the
+    object.  The model's inputs (`header_lines`) and the oracles of the searches come from `conf`."""
+    cls, kind, _, _ = F.FAMILIES[fam]
+    n = len(names)
+    T, st, k = case['T'], case.get('start_step', 1), case.get('k', 1)
+    var = case.get('variant') or ''
+    o = dict(case.get('opts') or {}) if var.startswith('o:') else {}
+    algo = ALGO[fam]
+    jkw = {'jump_interval': k} if k != 1 else {}
+    conf = {'algo': algo, 'T': T, 'st': st, 'k': k, 'dur': T if k != 1 else 0, 'n': n}
+    bnds = {p: doms[p] for p in names} if kind in ('box', 'intbox') else None
+    successive = {p: rng.random() < 0.5 for p in names} if kind in ('int', 'intbox') else None
+    skw = {'successive': successive} if successive is not None else {}
+    if (case.get('opts') or {}).get('successive') == 'default':
+        skw = {}                         # the class default: no parameter may repeat its value
+    # what the class documents as the prior width of a parameter
+    if kind == 'box':
+        widths = [abs(doms[p][1] - doms[p][0]) for p in names]
+    elif kind == 'intbox':
+        widths = [float(math.ceil(doms[p][1]) - math.floor(doms[p][0])) for p in names]
+    elif kind in ('angle', 'sphere'):
+        widths = [TWO_PI] * n
+    elif kind == 'int':
+        widths = [round(rng.uniform(4, 9), 3) for _ in names]
+    else:
+        widths = [round(rng.uniform(1, 4), 3) for _ in names]
+    if kind in ('real', 'int') and (case.get('opts') or {}).get('prior_widths'):
+        widths = [float(w) for w in case['opts']['prior_widths']][:n]
+    if algo == 'veitch':
+        xi = float(o.get('target_rate', 0.234))
+        akw = {}
+        if 'target_rate' in o:
+            akw['target_rate'] = xi
+        decay = None
+        if 'decay_rel' in o:
+            decay = akw['adaptation_decay'] = float(o['decay_rel']) / math.log10(T)
+        init = None
+        if 'initial_std_rel' in o:
+            init = [float(r) * w for r, w in zip(o['initial_std_rel'], widths)]
+            akw['initial_std'] = numpy.array(init, dtype=float)
+        if st != 1:
+            akw['start_step'] = st
+        if fam in ('adaptive_normal', 'adaptive_discrete'):
+            prop = cls(names, dict(zip(names, widths)), T, **skw, **jkw, **akw)
+        elif fam in ('adaptive_bounded_normal', 'adaptive_bounded_discrete'):
+            prop = cls(names, bnds, T, **skw, **jkw, **akw)
+        else:
+            prop = cls(names, T, **jkw, **akw)
+        conf.update(xi=xi, deltas=widths, decay=decay, init=init)
+    elif algo == 'ss':
+        ckw = {}
+        cov = [round(rng.uniform(0.05, 0.6), 3) for _ in names]
+        if kind in ('int', 'intbox'):
+            cov = [round(rng.uniform(0.6, 4.0), 2) for _ in names]
+        full = None
+        xi = float(o.get('target_rate', 0.234))
+        max_cov = None
+        if o:
+            ckw['target_rate'] = xi
+            how = o.get('cov', 'diag')
+            if how == 'full' and n >= 2:
+                full = F._spd(n, rng)
+            elif how == 'scalar':
+                cov = [cov[0]] * n
+            elif how == 'default':
+                cov = None
+            if kind in ('box', 'intbox', 'angle'):
+                scale0 = max(widths)
+            elif full is not None:
+                scale0 = float(numpy.max(numpy.diag(full))) ** 0.5
+            else:
+                scale0 = 1.0 if cov is None else max(cov) ** 0.5
+            max_cov = ckw['max_cov'] = (float(o['max_std_rel']) * scale0) ** 2
+            if k != 1:
+                conf['dur'] = max(2, int(round(float(o.get('dur_rel', 1.0)) * T)))
+        elif var == 'full' and n >= 2:
+            full = F._spd(n, rng)
+        elif var == 'diag+cap':
+            max_cov = ckw['max_cov'] = round(rng.uniform(0.7, 2.0), 2)
+        elif var == 'default-cov':
+            cov = None
+        if k != 1:
+            jkw['jump_interval_duration'] = conf['dur']
+        arg = full if full is not None else (cov if (cov is None or o.get('cov') != 'scalar') else cov[0])
+        if bnds is not None:
+            prop = cls(names, bnds, cov=arg, **skw, **jkw, **ckw)
+        else:
+            prop = cls(names, cov=arg, **skw, **jkw, **ckw)
+        if max_cov is None and kind in ('box', 'intbox', 'angle'):
+            max_cov = (1.49 * max(widths)) ** 2        # the documented default cap of the bounded classes
+        conf.update(xi=xi, diag=full is None, max_cov=max_cov,
+                    cov=[list(map(float, r)) for r in full] if full is not None else (
+                        [1.0] * n if cov is None else [float(c) for c in cov]))
+    elif algo == 'at':
+        flags = var.split(':')[-1] if var else ''
+        comp = 'comp' in flags
+        diag = 'diag' in flags if fam == 'at_adaptive_normal' else True
+        akw = {}
+        if 'target_rate' in o:
+            akw['target_rate'] = float(o['target_rate'])
+        if fam == 'at_adaptive_normal':
+            prop = cls(names, T, diagonal=diag, componentwise=comp, start_step=st, **jkw, **akw)
+        elif fam == 'at_adaptive_bounded_normal':
+            prop = cls(names, bnds, T, componentwise=comp, start_step=st, **jkw, **akw)
+        else:
+            prop = cls(names, T, componentwise=comp, start_step=st, **jkw, **akw)
+        conf.update(xi=float(o.get('target_rate', 0.48 if comp else 0.234)), comp=comp, diag=diag)
+    elif algo == 'eig':
+        akw = {}
+        how = o.get('cov0', 'spd')
+        if how == 'spd':
+            cov0 = F._spd(n, rng)
+            akw['cov0'] = cov0
+        elif how == 'scalar':
+            s = round(rng.uniform(0.02, 0.5), 3)
+            cov0 = numpy.eye(n) * s
+            akw['cov0'] = s
+        else:
+            cov0 = numpy.eye(n)
+        for key in ('target_rate', 'shuffle_rate'):
+            if key in o:
+                akw[key] = float(o[key])
+        if bnds is not None:
+            prop = cls(names, bnds, T, start_step=st, **jkw, **akw)
+        else:
+            prop = cls(names, T, start_step=st, **jkw, **akw)
+        conf.update(xi=float(o.get('target_rate', 0.234)), cov0=[list(map(float, r)) for r in cov0])
+    else:
+        akw = {key: o[key] for key in ('target_rate', 'radec', 'degs') if key in o}
+        prop = cls(names[0], names[1], T, start_step=st, **jkw, **akw)
+        conf.update(xi=float(o.get('target_rate', 0.234)), radec=bool(o.get('radec')), degs=bool(o.get('degs')))
+    return prop, conf
+
+
 def build(case):
-    """case: dict(family, variant, n, T, start_step, k, seed, model=..., beta, start).
+    """case: dict(family, variant, opts, n, T, start_step, k, seed, model=..., beta, start).
 
     Returns (chain, proposal, model, names, boxes)."""
+    return build_ex(case)[:5]
+
+
+def build_ex(case):
+    """`build` plus the configured constants: (chain, proposal, model, names, boxes, conf)."""
     fam = case['family']
     cls, kind, lo, hi = F.FAMILIES[fam]
     n = case.get('n') or lo
@@ -146,33 +359,13 @@ def build(case):
     doms = {p: F.domain_for(kind, rng, i) for i, p in enumerate(names)}
     if case.get('doms'):
         doms = {p: tuple(case['doms'][p]) for p in names}
-    T, st, k = case['T'], case.get('start_step', 1), case.get('k', 1)
-    var = case.get('variant')
-    kw = {'jump_interval': k} if k != 1 else {}
-    dur = {'jump_interval_duration': T} if k != 1 else {}
-    if fam == 'at_adaptive_normal' and var:
-        prop = cls(names, T, diagonal=var.startswith('diag'), componentwise=var.endswith('comp'),
-                   start_step=st, **kw)
-    elif fam in ('at_adaptive_bounded_normal',) and var:
-        prop = cls(names, {p: doms[p] for p in names}, T, componentwise=(var == 'comp'),
-                   start_step=st, **kw)
-    elif fam == 'at_adaptive_angular' and var:
-        prop = cls(names, T, componentwise=(var == 'comp'), start_step=st, **kw)
-    elif fam == 'ss_adaptive_normal' and var:
-        if var == 'full' and n >= 2:
-            prop = cls(names, cov=F._spd(n, rng), **kw, **dur)
-        elif var == 'diag+cap':
-            cov = [round(rng.uniform(0.05, 0.6), 3) for _ in names]
-            prop = cls(names, cov=cov, max_cov=round(rng.uniform(0.7, 2.0), 2), **kw, **dur)
-        else:
-            prop = cls(names, cov=[round(rng.uniform(0.05, 0.6), 3) for _ in names], **kw, **dur)
-    elif fam == 'ss_adaptive_bounded_normal' and var == 'default-cov':
-        prop = cls(names, {p: doms[p] for p in names}, **kw, **dur)
-    else:
-        prop = F.make(fam, names, doms, rng, window=T, start_step=st, jump_interval=k)
+    prop, conf = _construct(case, fam, names, doms, rng)
     boxes = {p: prior_box(kind, doms[p]) for p in names}
     if kind == 'sphere':
-        boxes = {names[0]: (0.0, TWO_PI), names[1]: (0.0, math.pi)}
+        # the class's conventions: polar angle on [0, pi], or [-pi/2, pi/2] with radec; degrees with degs
+        f = 180.0 / math.pi if conf.get('degs') else 1.0
+        off = -math.pi / 2 if conf.get('radec') else 0.0
+        boxes = {names[0]: (0.0, TWO_PI * f), names[1]: (off * f, (math.pi + off) * f)}
     mk = case.get('model', 'A')
     if mk in ('flat', 'peak', 'smooth'):
         centre = None
@@ -198,8 +391,11 @@ def build(case):
         if where == 'interior':
             if isinstance(model, BoxModel) and model.target == 'peak':
                 v = model.centre[p]
+            elif kind == 'sphere':
+                v = F.start_value(kind, doms[p], rng, i)
+                v = (v + (off if i == 1 else 0.0)) * f
             else:
-                v = F.start_value(kind, doms[p], rng, i if kind == 'sphere' else 0)
+                v = F.start_value(kind, doms[p], rng, 0)
         elif where == 'lo':
             v = b[0]
         elif where == 'hi':
@@ -213,10 +409,10 @@ def build(case):
             v = min(max(int(round(v)), math.ceil(b[0])), math.floor(b[1]))
         if kind == 'sphere' and where != 'interior':
             # the poles are C12's subject (F17); stay a little inside
-            v = min(max(v, b[0] + 1e-3), b[1] - 1e-3)
+            v = min(max(v, b[0] + 1e-3 * f), b[1] - 1e-3 * f)
         start[p] = v
     ch.start_position = start
-    return ch, prop, model, names, boxes
+    return ch, prop, model, names, boxes, conf
 
 
 # --------------------------------------------------------------------------
@@ -313,25 +509,40 @@ def _mat(rows):
     return ';'.join(csv(r) for r in rows)
 
 
-def header_lines(case_id, prop, kind, nsteps):
-    """`case` / `clock` / `fam` / oracle tables for a freshly built proposal."""
-    T = int(getattr(prop, 'adaptation_duration', 0) or 0)
-    k = prop.jump_interval
-    dur = int(prop.jump_interval_duration or 0) if k != 1 else 0
+def header_lines(case_id, prop, kind, nsteps, conf=None):
+    """`case` / `clock` / `fam` / oracle tables for a freshly built proposal.
+
+    With `conf` (always, from `drive`): every constant the case configures -- clock, target rate, prior
+    widths, decay, initial widths / covariance, cap -- is taken from the configuration; the live object
+    supplies only what the constructor fixes by itself (Andrieu-Thoms / eigenvector zero mean, kappa = 5)."""
+    if conf is None:
+        conf = conf_of_live(prop, kind)
+    T, k, dur, st = conf['T'], conf['k'], conf['dur'], conf['st']
+    if kind == 'ss':
+        T = 0                               # no window; the case's T is only the run length
     win = {'veitch': 'veitch', 'ss': 'ss'}.get(kind, 'at')
     out = ['case ' + case_id,
-           'clock k=%d dur=%d win=%s T=%d st=%d' % (k, dur, win, T, prop.start_step)]
-    xi = frac(prop.target_rate)
+           'clock k=%d dur=%d win=%s T=%d st=%d' % (k, dur, win, T, st)]
+    xi = frac(conf['xi'])
     if kind == 'veitch':
-        out.append('fam veitch xi=%s deltas=%s std=%s' % (xi, csv(prop.deltas), csv(prop._std)))
+        init = 'default' if conf['init'] is None else csv(conf['init'])
+        out.append('fam veitch xi=%s deltas=%s std=%s' % (xi, csv(conf['deltas']), init))
+        decay = conf['decay']
+        if decay is None:
+            decay = 1. / numpy.log10(T)     # the documented default
         for dk in range(1, T + 3):
-            out.append('gain %d %s' % (dk, frac(dk ** (-prop.adaptation_decay) - 0.1)))
+            out.append('gain %d %s' % (dk, frac(dk ** (-decay) - 0.1)))
     elif kind == 'ss':
-        diag = bool(prop.isdiagonal)
-        cap = prop.max_std if diag else prop.max_std ** 2
-        vals = prop._std if diag else prop._cov.ravel()
-        out.append('fam ss diag=%d xi=%s cap=%s vals=%s' % (
-            diag, xi, 'inf' if numpy.isinf(cap) else frac(cap), csv(vals)))
+        diag = bool(conf['diag'])
+        cov = numpy.array(conf['cov'], dtype=float).ravel()
+        vals = cov ** 0.5 if diag else cov
+        mc = conf['max_cov']
+        if mc is None:
+            capt = 'cap=inf'
+        else:
+            cap = mc ** 0.5
+            capt = 'cap=%s maxcov=%s' % (frac(cap if diag else cap ** 2), frac(mc))
+        out.append('fam ss diag=%d xi=%s %s vals=%s cov=%s' % (diag, xi, capt, csv(vals), csv(cov)))
         for n in range(1, nsteps + 3):
             up, down = numpy.exp(1 / n), numpy.exp(-1 / n)
             if diag:
@@ -340,18 +551,39 @@ def header_lines(case_id, prop, kind, nsteps):
             out.append('ssa down %d %s' % (n, frac(down)))
     else:
         if kind == 'at':
-            out.append('fam at xi=%s comp=%d diag=%d n=%d' % (
-                xi, bool(prop._iscomponentwise), bool(prop.isdiagonal), prop.ndim))
+            out.append('fam at xi=%s comp=%d diag=%d n=%d' % (xi, bool(conf['comp']), bool(conf['diag']), conf['n']))
         elif kind == 'eig':
+            cov0 = numpy.array(conf['cov0'], dtype=float)
             out.append('fam eig xi=%s tol=%s mu=%s cov=%s eig=%s' % (
-                xi, frac(1e-12), csv(prop._mu), _mat(prop._cov), csv(prop.eigvals)))
+                xi, frac(1e-12), csv(prop._mu), _mat(cov0), csv(numpy.linalg.eigh(cov0)[0])))
         else:
             out.append('fam vmf xi=%s lk=%s kappa=%s norm=%s' % (
                 xi, frac(prop._log_kappa), frac(prop.kappa), frac(prop.norm)))
-        c = prop._decay_const
+        c = float(T) ** (-0.6)
         for dk in range(1, T + 3):
             out.append('gain %d %s %s' % (dk, frac(dk ** (-0.6) - c), frac(c)))
     return out
+
+
+def conf_of_live(prop, kind):
+    """The configuration as far as it can be read back from a live object (replays of cases stored by
+    older versions of this file; not used by the suite)."""
+    k = prop.jump_interval
+    conf = {'algo': kind, 'T': int(getattr(prop, 'adaptation_duration', 0) or 0), 'k': k,
+            'dur': int(prop.jump_interval_duration or 0) if k != 1 else 0, 'st': prop.start_step,
+            'xi': float(prop.target_rate), 'n': len(prop.parameters)}
+    if kind == 'veitch':
+        conf.update(deltas=[float(d) for d in prop.deltas], decay=float(prop.adaptation_decay),
+                    init=[float(s) for s in prop._std])
+    elif kind == 'ss':
+        diag = bool(prop.isdiagonal)
+        conf.update(diag=diag, max_cov=None if numpy.isinf(prop.max_std) else float(prop.max_std) ** 2,
+                    cov=[float(v) for v in (prop._std ** 2 if diag else prop._cov.ravel())])
+    elif kind == 'at':
+        conf.update(comp=bool(prop._iscomponentwise), diag=bool(prop.isdiagonal))
+    elif kind == 'eig':
+        conf.update(cov0=[list(map(float, r)) for r in prop._cov])
+    return conf
 
 
 def step_line(chain, prop, kind, tap):
@@ -387,26 +619,36 @@ def step_line(chain, prop, kind, tap):
 
 def drive(case, nsteps):
     """Run the real chain `nsteps` steps.  Returns dict(lines, real=[...], kind, error)."""
-    ch, prop, model, names, boxes = build(case)
+    ch, prop, model, names, boxes, conf = build_ex(case)
     kind = kind_of(prop)
+    if kind != conf['algo']:
+        raise RuntimeError('%s is a %s proposal, configured as %s' % (case['family'], kind, conf['algo']))
     tap = Tap(ch)
-    lines = header_lines(case['id'], prop, kind, nsteps)
+    lines = header_lines(case['id'], prop, kind, nsteps, conf)
     real = []
-    err = None
+    with CountDraws(prop, STALL_SINGLE) as cnt:      # a jump that does not return is cut off (Stall), not waited for
+        _drive_steps(ch, prop, kind, tap, nsteps, lines, real, cnt)
+    err = real[-1].get('error') if real and real[-1].get('raise') else None
+    return {'lines': lines, 'real': real, 'kind': kind, 'error': err,
+            'init': None, 'T': conf['T']}
+
+
+def _drive_steps(ch, prop, kind, tap, nsteps, lines, real, cnt):
     for it in range(nsteps):
         pre = {'raw': prop._nsteps, 'nsteps': prop.nsteps,
                'dk': prop.nsteps - prop.start_step + 1, 'jump': bool(prop._call_jump())}
         tap.calls = []
+        cnt['jump'] = 0
         try:
             ch.step()
-        except Exception as e:                       # noqa: BLE001 - recorded, compared with the model
+        except (Stall, Exception) as e:              # noqa: BLE001 - recorded, compared with the model
             err = {'step': it, 'exception': repr(e)[:300], 'traceback': traceback.format_exc()[-1500:]}
             # the model needs the oracle values of the failed update to decide the same
             try:
                 lines.append(step_line(ch, prop, kind, tap))
             except Exception:                        # noqa: BLE001
                 lines.append('step acc=0')
-            real.append({'pre': pre, 'raise': True})
+            real.append({'pre': pre, 'raise': True, 'error': err})
             break
         lines.append(step_line(ch, prop, kind, tap))
         state = read_state(prop, kind)
@@ -418,24 +660,47 @@ def drive(case, nsteps):
         real.append({'pre': pre, 'state': state, 'raw': prop._nsteps,
                      'acc': bool(ch.acceptance[-1]['accepted']),
                      'ar': float(ch.acceptance['acceptance_ratio'][-1])})
-    return {'lines': lines, 'real': real, 'kind': kind, 'error': err,
-            'init': None, 'T': int(getattr(prop, 'adaptation_duration', 0) or 0)}
 
 
-def run_model(all_lines, timeout=3600):
+def _run_model_one(lines, timeout):
     p = subprocess.run(['lake', 'env', 'lean', '--run', 'DriverAdapt.lean'], cwd=common.LEAN_DIR,
-                       input='\n'.join(all_lines) + '\n', stdout=subprocess.PIPE,
+                       input='\n'.join(lines) + '\n', stdout=subprocess.PIPE,
                        stderr=subprocess.PIPE, text=True, timeout=timeout)
     if p.returncode != 0:
         raise RuntimeError('Lean adapt driver failed: ' + p.stderr[-2000:])
+    return p.stdout
+
+
+def run_model(all_lines, timeout=3600, procs=8):
+    """The Lean model's answers, per case id.  The cases are independent (a `case` line resets the
+    driver), so they are dealt out to a few driver processes by size."""
+    blocks = []
+    for ln in all_lines:
+        if ln.startswith('case ') or not blocks:
+            blocks.append([])
+        blocks[-1].append(ln)
+    procs = max(1, min(procs, len(blocks) // 8 or 1, os.cpu_count() or 1))
+    bins = [[0, []] for _ in range(procs)]
+    for b in sorted(blocks, key=len, reverse=True):
+        tgt = min(bins, key=lambda x: x[0])
+        # the cost of a case grows faster than its length (the rationals grow along a run)
+        tgt[0] += len(b) ** 1.5
+        tgt[1] += b
+    if procs == 1:
+        outs = [_run_model_one(bins[0][1], timeout)]
+    else:
+        from concurrent.futures import ThreadPoolExecutor
+        with ThreadPoolExecutor(procs) as ex:
+            outs = list(ex.map(lambda b: _run_model_one(b[1], timeout), bins))
     cases = {}
-    cur = None
-    for ln in p.stdout.splitlines():
-        if ln.startswith('case '):
-            cur = ln[5:].strip()
-            cases[cur] = []
-        elif cur is not None:
-            cases[cur].append(ln)
+    for out in outs:
+        cur = None
+        for ln in out.splitlines():
+            if ln.startswith('case '):
+                cur = ln[5:].strip()
+                cases[cur] = []
+            elif cur is not None:
+                cases[cur].append(ln)
     return cases
 
 
@@ -569,11 +834,32 @@ def compare(case, res, mlines):
 # --------------------------------------------------------------------------
 
 def gen_corr_cases(seed, tier):
-    """Every adaptive class x sub-variant x history x start step x jump interval."""
+    """Every adaptive class x sub-variant x history x start step x jump interval, then every adaptive class
+    x optional-argument variant (`o:*`, n >= 2 parameters where the class allows) x history, the histories
+    of these led by long runs of rejections (forced, or a needle target)."""
     rng = random.Random(seed * 1009 + 17)
     patterns = ['A', 'R', 'AR', 'random', 'smooth']
     cases = []
     reps = 1 if tier == 'quick' else 4
+
+    def add(fam, var, pat, opts=None, nmin=1, sharp=None):
+        lo, hi = F.FAMILIES[fam][2], F.FAMILIES[fam][3]
+        T = rng.randint(10, 60)
+        k = rng.choice([1, 3])
+        st = rng.choice([1, 1, rng.randint(2, 6)])
+        if fam.startswith('ss_'):
+            st = 1                       # Sivia-Skilling has no start_step argument
+        nsteps = min(k * (st + T) + rng.randint(3, 12), 260)
+        c = {'family': fam, 'variant': var, 'n': rng.randint(max(lo, min(nmin, hi)), hi), 'T': T,
+             'start_step': st, 'k': k, 'seed': rng.randrange(10 ** 6),
+             'model': pat, 'beta': 1.0, 'nsteps': nsteps}
+        if opts is not None:
+            c['opts'] = opts
+        if sharp is not None:
+            c['sharp'] = sharp
+        c['id'] = 'adapt-%d' % len(cases)
+        cases.append(c)
+
     for rep in range(reps):
         for fam in ADAPTIVE:
             for var in VARIANTS.get(fam, [None]):
@@ -583,21 +869,67 @@ def gen_corr_cases(seed, tier):
                     rng.shuffle(pats)
                     pats = pats[:2] if VARIANTS.get(fam) else pats
                 for pat in pats:
-                    lo, hi = F.FAMILIES[fam][2], F.FAMILIES[fam][3]
-                    T = rng.randint(10, 60)
-                    k = rng.choice([1, 3])
-                    st = rng.choice([1, 1, rng.randint(2, 6)])
-                    if F.FAMILIES[fam][0] in (P.AdaptiveBoundedDiscrete, P.AdaptiveNormalDiscrete):
-                        pass
-                    if fam.startswith('ss_'):
-                        st = 1                       # Sivia-Skilling has no start_step argument
-                    nsteps = min(k * (st + T) + rng.randint(3, 12), 260)
-                    c = {'family': fam, 'variant': var, 'n': rng.randint(lo, hi), 'T': T,
-                         'start_step': st, 'k': k, 'seed': rng.randrange(10 ** 6),
-                         'model': pat, 'beta': 1.0, 'nsteps': nsteps}
-                    c['id'] = 'adapt-%d' % len(cases)
-                    cases.append(c)
+                    add(fam, var, pat)
+        for fam in ADAPTIVE:
+            for var in OPT_VARIANTS[fam]:
+                tag = var[2:]
+                # first a history that starts with a run of rejections (the widths go down to the guard,
+                # one parameter at a time when the initial widths are not proportional to the prior widths)
+                pats = [rng.choice(REJECT_RUNS + ['peak'])]
+                rest = [p for p in patterns + REJECT_RUNS[1:] + ['peak'] if p != pats[0]]
+                if tier != 'quick':
+                    pats += rng.sample(rest, 2)
+                elif ALGO[fam] in ('ss', 'eig', 'vmf') or tag == 'all':
+                    pats.append(rng.choice(rest))
+                for pat in pats:
+                    add(fam, var, pat, opts=gen_opts(fam, tag, rng, wide_decay=True), nmin=2,
+                        sharp=rng.choice([1e-4, 1e-9]) if pat == 'peak' else None)
     return cases
+
+
+def opt_coverage(cases):
+    """How many cases set which optional constructor argument to a non-default value."""
+    out = {'cases_with_non_default_arguments': 0, 'by_family': {}, 'by_argument': {}, 'with_two_or_more_parameters': 0}
+    for c in cases:
+        if not is_opt(c):
+            continue
+        out['cases_with_non_default_arguments'] += 1
+        out['by_family'][c['family']] = out['by_family'].get(c['family'], 0) + 1
+        if (c.get('n') or 1) >= 2:
+            out['with_two_or_more_parameters'] += 1
+        args = {'initial_std_rel': 'initial_std', 'decay_rel': 'adaptation_decay', 'max_std_rel': 'max_cov',
+                'dur_rel': 'jump_interval_duration'}
+        for key, val in (c.get('opts') or {}).items():
+            if (key == 'dur_rel' and c.get('k', 1) == 1) or key in ('prior_widths', 'successive'):
+                continue
+            if key in ('cov', 'cov0'):
+                key = '%s=%s' % (key, val)
+            elif key in ('radec', 'degs') and not val:
+                continue
+            key = args.get(key, key)
+            out['by_argument'][key] = out['by_argument'].get(key, 0) + 1
+        flags = str(c.get('variant')).split(':')[2:]
+        for fl in (flags[0].split('+') if flags else []):
+            if fl in ('comp', 'diag'):
+                key = {'comp': 'componentwise', 'diag': 'diagonal'}[fl]
+                out['by_argument'][key] = out['by_argument'].get(key, 0) + 1
+    return out
+
+
+def _guard_split(res):
+    """Number of real Veitch updates after which some widths had moved and others had not (the
+    non-negativity guard decided per parameter)."""
+    if res['kind'] != 'veitch':
+        return 0
+    cnt, prev = 0, None
+    for r in res['real']:
+        cur = r.get('state', {}).get('std')
+        if prev is not None and cur is not None and len(cur) > 1:
+            moved = [a != b for a, b in zip(cur, prev)]
+            if any(moved) and not all(moved):
+                cnt += 1
+        prev = cur
+    return cnt
 
 
 def correspondence(chk, tier):
@@ -620,12 +952,14 @@ def correspondence(chk, tier):
     fams = {}
     kinds = {}
     nsteps = 0
+    guard_split = 0
     for c in cases:
         res = results.get(c['id'])
         if res is None:
             continue
         out = compare(c, res, model.get(c['id'], []))
         nsteps += len(res['real'])
+        guard_split += _guard_split(res)
         if not out.get('ok'):
             divs.append({'case': c, 'step': out['step'], 'why': out['why'],
                          'real_error': res['error'] and res['error']['exception']})
@@ -637,7 +971,8 @@ def correspondence(chk, tier):
     for b in build_errors:
         divs.append({'case': b['case'], 'step': -1, 'why': 'real code raised while building/driving: ' + b['exception']})
     cov = {'cases': len(cases), 'steps': nsteps, 'divergences': len(divs), 'branches': agg,
-           'families': fams, 'kinds': kinds,
+           'families': fams, 'kinds': kinds, 'optional_arguments': opt_coverage(cases),
+           'guard_fired_for_some_widths_only': guard_split,
            'histories': sorted({c['model'] for c in cases}),
            'jump_intervals': sorted({c['k'] for c in cases}),
            'start_steps': sorted({c['start_step'] for c in cases}),
@@ -774,6 +1109,7 @@ def usability_run(case):
     nsteps = case['nsteps']
     findings = []
     out = {'steps': 0, 'max_draws': 0, 'block_mean_max': 0.0, 'accepted': 0, 'kind': kind}
+    widths = True if kind == 'veitch' or (kind == 'ss' and prop.isdiagonal) else None
     with CountDraws(prop, STALL_SINGLE) as cnt:
         block = 0
         for it in range(nsteps):
@@ -799,6 +1135,32 @@ def usability_run(case):
             out['max_draws'] = max(out['max_draws'], d)
             block += d
             out['steps'] += 1
+            if widths is not None:
+                # the widths after EVERY update (cheap); the full test of all attributes every 100 steps
+                s = numpy.asarray(prop._std, dtype=float)
+                if not (numpy.isfinite(s).all() and (s >= 0).all() and (kind == 'veitch' or (s > 0).all())):
+                    findings.append(('inadmissible-scale:' + fam, '%s: widths %s after step %d (%s target, '
+                                     'adaptation_duration %d, beta %g)' % (fam, ['%.4g' % v for v in s[:4]], it,
+                                                                           case['model'], T, case['beta'])))
+                    break
+                if not (s > 0).all():
+                    # a width of exactly 0 (the guard tests `< 0`): not a positive width; what the next step
+                    # makes of it depends on the class
+                    cnt['jump'] = 0
+                    try:
+                        ch.step()
+                        nxt = 'the next step proposed %s from %s' % (
+                            [float(ch.proposed_position[p]) if ch.proposed_position else None for p in names][:3],
+                            [float(ch.positions[-2][p]) if len(ch.positions) > 1 else None for p in names][:3])
+                    except Stall:
+                        nxt = 'the next jump did not return within %d draws' % STALL_SINGLE
+                    except Exception as e:               # noqa: BLE001
+                        nxt = 'the next step raised %s: %s' % (type(e).__name__, str(e).split('\n')[0][:60])
+                    findings.append(('zero-width:' + fam, '%s: widths %s after step %d (target_rate %g, %s target, '
+                                     'adaptation_duration %d, beta %g); %s' % (
+                                         fam, ['%.4g' % v for v in s[:4]], it, float(prop.target_rate), case['model'],
+                                         T, case['beta'], nxt)))
+                    break
             out['accepted'] += bool(ch.acceptance[-1]['accepted'])
             if block > STALL_BLOCK * 100:
                 # the mean over this 100-step block exceeds the budget whatever the rest of it does
@@ -895,6 +1257,64 @@ def gen_usability_cases(seed, tier, full=False):
                              'nsteps': nsteps}
                         c['id'] = 'use-%d' % len(cases)
                         cases.append(c)
+    # the optional constructor arguments at non-default values (`o:*`): n >= 2 parameters with unequal boxes
+    # where the class allows; flat (everything accepted), needle (long runs of rejections) and
+    # always-rejected targets.  Arguments that change how far a scale can travel in a window
+    # (adaptation_decay, target_rate, max_cov) stay with the short and medium durations; user supplied
+    # initial widths (`o:init`) also see the long ones.
+    for fam in ADAPTIVE:
+        lo, hi = F.FAMILIES[fam][2], F.FAMILIES[fam][3]
+        slow = fam == 'adaptive_bounded_eigenvector'
+        for var in OPT_VARIANTS[fam]:
+            durs = [30, 300] if not slow else [30, 100]
+            if var == 'o:init':
+                durs = durs + [durations[2]]
+            if thorough and not slow:
+                durs = durs + [1000]
+            for T in durs:
+                for mk, beta, sharp in (('flat', 0.0, None), ('peak', 1.0, 1e-4), ('peak', 1.0, 1e-9),
+                                        ('smooth', 1.0, None), ('flat', 1e-3, None)):
+                    if not thorough and (mk, beta) in (('smooth', 1.0), ('flat', 1e-3)) and T != 30:
+                        continue
+                    kind0 = F.FAMILIES[fam][1]
+                    if T > 300 and not (mk == 'peak' or ((mk, beta) == ('flat', 0.0) and kind0 != 'real')):
+                        continue
+                    starts = ['interior']
+                    if kind0 in ('box', 'intbox', 'angle') and T == 300 and mk == 'flat' and not slow:
+                        starts = ['interior', 'corner']
+                    for start in starts:
+                        c = {'family': fam, 'variant': var, 'opts': gen_opts(fam, var[2:], rng, wide_decay=T <= 300),
+                             'n': rng.randint(max(lo, min(2, hi)), hi), 'T': T, 'start_step': 1, 'k': 1,
+                             'seed': rng.randrange(10 ** 6), 'model': mk, 'beta': beta, 'start': start,
+                             'nsteps': T + 60 if not fam.startswith('ss_') else T}
+                        if sharp is not None:
+                            c['sharp'] = sharp
+                        if (mk, beta) == ('flat', 0.0) and T >= 300 and kind0 in ('box', 'intbox', 'angle') and not slow:
+                            # everything is accepted: the scales grow as far as the window / the cap lets them;
+                            # as many parameters as the class takes (the draws of a jump add up over them)
+                            c['n'] = hi
+                            if kind0 == 'box' and ALGO[fam] == 'ss' and start == 'interior':
+                                # very unequal boxes: the cap is relative to the widest one
+                                ws = [round(rng.uniform(0.12, 0.25), 3)] + [round(rng.uniform(2, 3), 2) for _ in range(hi - 1)]
+                                rng.shuffle(ws)
+                                los = [round(rng.uniform(-2, 0), 2) for _ in ws]
+                                c['doms'] = {'x%d' % i: [a, round(a + w, 3)] for i, (a, w) in enumerate(zip(los, ws))}
+                        c['id'] = 'use-%d' % len(cases)
+                        cases.append(c)
+    # target_rate = 1/2 with the default initial widths (C14_veitch_zero_width_witness): the first rejected update
+    # of the window subtracts exactly the initial width.  Prior width 6 (and 2 pi for the angles): the float
+    # subtraction is then exact too.  Everything is rejected (a needle of relative width 1e-9).
+    for fam in ADAPTIVE:
+        if ALGO[fam] != 'veitch':
+            continue
+        c = {'family': fam, 'variant': 'o:rate',
+             'opts': {'target_rate': 0.5, 'prior_widths': [6.0, 6.0], 'successive': 'default'}, 'n': 2,
+             'T': 30, 'start_step': 1, 'k': 1, 'seed': rng.randrange(10 ** 6), 'model': 'peak', 'sharp': 1e-9,
+             'beta': 1.0, 'start': 'interior', 'nsteps': 60}
+        if F.FAMILIES[fam][1] in ('box', 'intbox'):
+            c['doms'] = {'x0': [1.0, 7.0], 'x1': [-2.0, 4.0]}
+        c['id'] = 'use-%d' % len(cases)
+        cases.append(c)
     # F22: bounded eigenvector families kept exactly on a corner of the box (a needle centred on the
     # corner rejects every move away from it): one with the corner at 0 (only the absolute tolerance of
     # the `isclose` band admits a draw), one with non-zero bounds (points in the relative band)
@@ -966,6 +1386,8 @@ class usability_search:
 def _usability_collect(cases, outs):
     findings = {}
     cov = {'runs': len(outs), 'steps': 0, 'max_draws_per_jump': 0, 'families': {}, 'targets': {},
+           'optional_arguments': opt_coverage(cases), 'rejected_steps': sum(o['steps'] - o['accepted'] for o in outs),
+           'needle_widths': sorted({c.get('sharp', 1e-4) for c in cases if c['model'] == 'peak'}),
            'durations': sorted({c['T'] for c in cases}), 'betas': sorted({c['beta'] for c in cases}),
            'starts': sorted({c.get('start', 'interior') for c in cases}), 'max_draws_by_family': {}}
     for o in outs:
@@ -998,12 +1420,13 @@ def direction_run(case):
         Sivia-Skilling: rate so far vs target, subject to the documented cap for widening);
       * after the window (all but Sivia-Skilling): all scale attributes bit-identical for ever;
       * an iteration at which the proposal did not jump never changes anything."""
-    ch, prop, model, names, boxes = build(case)
+    ch, prop, model, names, boxes, conf = build_ex(case)
     kind = kind_of(prop)
     fam = case['family']
     pat = case['model']
-    T = int(getattr(prop, 'adaptation_duration', 0) or 0)
-    k = prop.jump_interval
+    # the clock and the target rate as the case configures them (not as the object reports them)
+    T = conf['T'] if kind != 'ss' else 0
+    k, st0 = conf['k'], conf['st']
     findings = []
     out = {'steps': 0, 'updates': 0, 'post_window_steps': 0, 'kind': kind}
     init = read_state(prop, kind)
@@ -1011,7 +1434,8 @@ def direction_run(case):
     prev_bytes = scale_bytes(prop, kind)
     frozen_bytes = None
     n_acc = 0
-    xi = float(prop.target_rate)
+    xi = conf['xi']
+    first = 1 if kind == 'veitch' else 2
     with CountDraws(prop, STALL_SINGLE) as cnt:
         for it in range(case['nsteps']):
             cnt['jump'] = 0
@@ -1038,7 +1462,15 @@ def direction_run(case):
                                  '(jump_interval %d)' % (fam, it, k)))
                 break
             if kind != 'ss':
-                first = 1 if kind == 'veitch' else 2
+                # from the configuration alone (C13_window_exact / C13_frozen_after_window_jump_interval): the
+                # first update is absorbed at iteration k (start_step + first - 1), the last one before
+                # iteration k (start_step + T - 1)
+                if changed and not k * (st0 + first - 1) <= it < k * (st0 + T - 1):
+                    findings.append(('adapts-outside-configured-window:' + fam,
+                                     '%s: scale attributes changed at iteration %d; configured start_step %d, '
+                                     'adaptation_duration %d, jump_interval %d: the window is iterations %d..%d' % (
+                                         fam, it, st0, T, k, k * (st0 + first - 1), k * (st0 + T - 1) - 1)))
+                    break
                 if changed and dk < first:
                     findings.append(('adapts-before-start:' + fam,
                                      '%s: scale attributes changed at iteration %d, proposal step %d, dk=%d: before the '
@@ -1168,6 +1600,28 @@ def gen_direction_cases(seed, tier, full=False):
                          'k': k, 'seed': rng.randrange(10 ** 6), 'model': pat, 'beta': 1.0, 'nsteps': nsteps}
                     c['id'] = 'dir-%d' % len(cases)
                     cases.append(c)
+    # the optional constructor arguments at non-default values: n >= 2 parameters where the class allows,
+    # one-sided histories, long runs of rejections, alternating and random ones
+    for fam in ADAPTIVE:
+        lo, hi = F.FAMILIES[fam][2], F.FAMILIES[fam][3]
+        slow = fam.startswith('at_adaptive_b') or fam.startswith('at_adaptive_ang') or fam == 'adaptive_bounded_eigenvector'
+        for var in OPT_VARIANTS[fam]:
+            for pat in ['A', 'R', 'AR', 'random'] + REJECT_RUNS[1:]:
+                combos = ((1, 1), (3, 2)) if not thorough else ((1, 1), (3, 1), (1, 4), (3, 3))
+                if not thorough:
+                    # every (variant, history) once; the jump interval / start step alternate
+                    combos = (combos[rng.randrange(2)],)
+                for (k, st) in combos:
+                    if fam.startswith('ss_'):
+                        st = 1
+                    T = rng.choice([25, 80] if not thorough else ([40, 400, 2000] if not slow else [40, 150]))
+                    total = (300 if not slow else 200) if not thorough else (5000 if not slow else 1500)
+                    nsteps = max(total, k * (st + T) + 50)
+                    c = {'family': fam, 'variant': var, 'opts': gen_opts(fam, var[2:], rng),
+                         'n': rng.randint(max(lo, min(2, hi)), hi), 'T': T, 'start_step': st, 'k': k,
+                         'seed': rng.randrange(10 ** 6), 'model': pat, 'beta': 1.0, 'nsteps': nsteps}
+                    c['id'] = 'dir-%d' % len(cases)
+                    cases.append(c)
     # the default-covariance Sivia-Skilling bounded normal on a narrow box
     c = {'family': 'ss_adaptive_bounded_normal', 'variant': 'default-cov', 'n': 1, 'T': 30, 'start_step': 1,
          'k': 1, 'seed': 4242, 'model': 'R', 'beta': 1.0, 'nsteps': 400, 'doms': {'x0': [0.0, 0.1]}}
@@ -1211,7 +1665,9 @@ class direction_search:
 def _direction_collect(seen, outs):
     findings = {}
     cov = {'runs': len(outs), 'steps': 0, 'updates': 0, 'post_window_steps': 0, 'families': {},
-           'cut_short': 0, 'own_history_probes': len(seen)}
+           'cut_short': 0, 'own_history_probes': len(seen),
+           'optional_arguments': opt_coverage([o['case'] for o in outs]),
+           'histories': sorted({o['case']['model'] for o in outs})}
     for o in outs:
         c = o['case']
         cov['steps'] += o['steps']
